@@ -437,6 +437,10 @@ func (r *Runner) get(obj int, mode string) {
 	case "err integrity":
 		if !r.corrupted {
 			r.oracle("C01", "a read reported a data integrity error on a medium that was not corrupted", fmt.Sprintf("Get of object %d", obj))
+		} else {
+			// the medium only returns a flipped byte during the corrupt operation itself: every other read gets the
+			// stored bytes, so an integrity error here is a false detection (it quarantines healthy blocks)
+			r.oracle("C08", "after a detected corruption a read of intact data failed with a data integrity error (newer blocks must be unaffected)", fmt.Sprintf("Get of object %d", obj))
 		}
 	}
 	r.state()
@@ -585,6 +589,8 @@ func (r *Runner) findMissing(objs []int) {
 				r.noteTouch(o, newsAtStart, discardsAtStart)
 			}
 		}
+	} else if Code(err) == "err integrity" && r.corrupted {
+		r.oracle("C08", "after a detected corruption an existence check over intact data failed with a data integrity error (newer blocks must be unaffected)", fmt.Sprintf("FindMissing %v", objs))
 	} else if Code(err) == "err integrity" && !r.corrupted {
 		r.oracle("C01", "an existence check reported a data integrity error on a medium that was not corrupted", fmt.Sprintf("FindMissing %v", objs))
 	}
